@@ -39,6 +39,9 @@ class FlagTwin(history.Oracle):
         if k == "new_cells":
             return dict(op, is_cached=True)
         if k == "set_cached":
+            if getattr(self, "flag_before", None) == op["v"]:
+                # the flag already had that value: modelx does nothing at all (the cells is not even defined by it)
+                return None
             try:
                 src = self.b.space(op["space"]).cells[op["name"]].formula.source
             except Exception:
@@ -47,6 +50,11 @@ class FlagTwin(history.Oracle):
         return op
 
     def before(self, op):
+        if op["op"] == "set_cached":
+            try:
+                self.flag_before = self.mach.world.space(op["space"]).cells[op["name"]].is_cached
+            except Exception:
+                self.flag_before = None
         if op["op"] == "eval":
             self.log0 = len(probe.LOG)
 
